@@ -62,7 +62,7 @@ pub open spec fn elf_tag_wf(t: &ElfSectionsTag) -> bool {
 
 //@extract multiboot2/src/elf_sections.rs :: struct ElfSectionIter
 //@  keepattrs #\[derive
-//@  rewrite /#\[derive\(Clone\)\]/ => //
+//@  rewrite /#\[derive\(Clone\)\]/ => // x*
 //@end
 
 //@extract multiboot2/src/elf_sections.rs :: struct ElfSection
